@@ -126,10 +126,14 @@ Definition k_read (st : state) (f : fd) (n : nat) : fd * (list Z + errno) :=
 Definition k_write (st : state) (f : fd) (d : list Z) : state * fd * (nat + errno) :=
   if fd_dir f || negb (fd_wr f) then (st, f, inr EBADF)
   else
-    let c := overwrite (content_at (root st) (fd_path f)) (fd_pos f) d in
-    (set_root st (upd (root st) (fd_path f) (Some (NFile c))),
-     {| fd_path := fd_path f; fd_pos := fd_pos f + length d; fd_rd := fd_rd f; fd_wr := fd_wr f; fd_dir := fd_dir f |},
-     inl (length d)).
+    match get (root st) (fd_path f) with
+    | Some (NFile c0) =>
+        let c := overwrite c0 (fd_pos f) d in
+        (set_root st (upd (root st) (fd_path f) (Some (NFile c))),
+         {| fd_path := fd_path f; fd_pos := fd_pos f + length d; fd_rd := fd_rd f; fd_wr := fd_wr f; fd_dir := fd_dir f |},
+         inl (length d))
+    | _ => (st, f, inr EBADF)            (* the file is gone: outside the model *)
+    end.
 
 (* whence: 0 SEEK_SET, 1 SEEK_CUR, 2 SEEK_END *)
 Definition k_lseek (st : state) (f : fd) (off : Z) (whence : nat) : fd * Z :=
@@ -142,9 +146,13 @@ Definition k_lseek (st : state) (f : fd) (off : Z) (whence : nat) : fd * Z :=
 Definition k_sendfile (st : state) (dst src : fd) (count : nat) : state * (nat + errno) :=
   if fd_dir src || fd_dir dst || negb (fd_rd src) || negb (fd_wr dst) then (st, inr EINVAL)
   else
-    let d := firstn count (skipn (fd_pos src) (content_at (root st) (fd_path src))) in
-    let c := overwrite (content_at (root st) (fd_path dst)) (fd_pos dst) d in
-    (set_root st (upd (root st) (fd_path dst) (Some (NFile c))), inl (length d)).
+    match get (root st) (fd_path dst) with
+    | Some (NFile c0) =>
+        let d := firstn count (skipn (fd_pos src) (content_at (root st) (fd_path src))) in
+        let c := overwrite c0 (fd_pos dst) d in
+        (set_root st (upd (root st) (fd_path dst) (Some (NFile c))), inl (length d))
+    | _ => (st, inr EBADF)
+    end.
 
 Definition k_mknode (st : state) (path : str) (n : node) : state * option errno :=
   match resolve st false path with
@@ -330,6 +338,25 @@ Definition f_seek (st : state) (h : nat) (off : Z) (whence : nat) : state * Z :=
   | Some f => let (f', z) := k_lseek st f off whence in (set_handle st h (Some f'), z)
   end.
 
+(* one operation on an open handle, with its answer; a history of them *)
+Definition h_step (st : state) (h : nat) (o : hop) : state * hout :=
+  match o with
+  | HWrite d => let (st', b) := f_write st h d in (st', OBool b)
+  | HSeek off wh => let (st', z) := f_seek st h off wh in (st', OInt z)
+  | HReadAll => let '(st', (b, d)) := f_readAll st h in (st', OData b d)
+  | HRead n => match f_read st h n with
+               | (st', inl d) => (st', OData true d)
+               | (st', inr _) => (st', OData false [])
+               end
+  | HSize => let (st', z) := f_size st h in (st', OInt z)
+  end.
+
+Fixpoint h_run (st : state) (h : nat) (os : list hop) : state * list hout :=
+  match os with
+  | [] => (st, [])
+  | o :: t => let (st1, x) := h_step st h o in let (st2, xs) := h_run st1 h t in (st2, x :: xs)
+  end.
+
 Definition is_none {A} (o : option A) : bool := match o with None => true | Some _ => false end.
 
 (* File::unlink *)
@@ -449,3 +476,30 @@ Definition init_state : state :=
   {| root := NDir [(G1, NDir [(G2, NDir [(G3, NDir [(IN, NDir []); (OUT, NDir [])])])])];
      cwd := [G1; G2; G3; IN];
      handles := [] |}.
+
+(* ---- every operation of the drivers, for statements about all histories --------------------------- *)
+
+Inductive fsop :=
+| OpMkdir (p : str) | OpMkfile (p : str) (c : list Z) | OpMklink (target p : str)
+| OpOpen (h : nat) (p : str) (fr fw fa fo : bool) | OpClose (h : nat) | OpHandle (h : nat) (o : hop)
+| OpFUnlink (p : str) | OpSymlink (target p : str)
+| OpRename (a b : str) (fie : bool) | OpCopy (a b : str) (fie : bool)
+| OpCreate (p : str) | OpDUnlink (p : str) (recursive : bool).
+
+Definition fs_step (st : state) (o : fsop) : state :=
+  match o with
+  | OpMkdir p => fst (k_mkdir st p)
+  | OpMkfile p c => fst (k_mkfile st p c)
+  | OpMklink t p => fst (k_symlink st t p)
+  | OpOpen h p fr fw fa fo => fst (f_open st h p fr fw fa fo)
+  | OpClose h => f_close st h
+  | OpHandle h o => fst (h_step st h o)
+  | OpFUnlink p => fst (f_unlink st p)
+  | OpSymlink t p => fst (f_symlink st t p)
+  | OpRename a b fie => fst (f_rename st a b fie)
+  | OpCopy a b fie => fst (f_copy st a b fie)
+  | OpCreate p => fst (d_create (create_fuel p) st p)
+  | OpDUnlink p r => fst (d_unlink (unlink_fuel st) st p r)
+  end.
+
+Definition fs_run (st : state) (os : list fsop) : state := fold_left fs_step os st.
